@@ -14,21 +14,31 @@ def plan(tier, seed):
             'absent': [dict(n=3, m=2, labels='ints', schemes='four', configs='fast'),
                        dict(n=3, m=2, labels='ints_rev', schemes='two', configs='fast'),
                        dict(n=3, m=2, labels='letters', schemes='two', configs='fast'),
+                       dict(n=3, m=2, labels='mixed_strings', schemes='two', configs='fast'),
+                       dict(n=3, m=2, labels='digit_strings', schemes='one', configs='fast_det'),
                        dict(n=3, m=2, labels=alts[0], schemes='two', configs='fast'),
                        dict(n=2, m=3, labels='ints', schemes='four', configs='fast'),
                        dict(n=1, m=2, labels='ints', schemes='four', configs='all'),
                        dict(n=1, m=2, labels='letters', schemes='two', configs='all'),
                        dict(n=4, m=2, labels='ints', schemes='two', configs='fast_det', per=60),
                        dict(n=3, m=2, labels='ints', schemes='two', configs='cbc', per=6),
-                       dict(n=2, m=3, labels='letters', schemes='one', configs='cbc', per=6)],
+                       dict(n=2, m=3, labels='letters', schemes='one', configs='cbc', per=6),
+                       dict(space='ext43', labels='mixed_strings', schemes='ext1', configs='parcons_fast', per=300),
+                       dict(space='ext43', labels='ints_rev', schemes='ext1', configs='parcons_fast', per=300)],
             'absent_enum': [dict(n=3, m=2, labels='ints', schemes='four', configs='solver'),
                             dict(n=3, m=2, labels='letters_rev', schemes='two', configs='solver'),
-                            dict(n=2, m=3, labels='ints', schemes='two', configs='solver')],
+                            dict(n=3, m=2, labels='mixed_strings', schemes='two', configs='solver'),
+                            dict(n=2, m=3, labels='ints', schemes='two', configs='solver'),
+                            dict(space='ext43', labels='mixed_strings', schemes='ext1', configs='decomp', per=300),
+                            dict(space='ext43', labels='ints', schemes='ext1', configs='decomp', per=300)],
             'stub': [dict(n=3, m=2, labels='ints', schemes='four', configs='solver'),
                      dict(n=3, m=2, labels='letters', schemes='two', configs='solver'),
+                     dict(n=3, m=2, labels='mixed_strings', schemes='two', configs='solver'),
                      dict(n=2, m=3, labels='ints_rev', schemes='two', configs='solver'),
                      dict(n=1, m=2, labels='ints', schemes='two', configs='all'),
-                     dict(n=4, m=2, labels='ints', schemes='one_b', configs='cplex', per=60)],
+                     dict(n=4, m=2, labels='ints', schemes='one_b', configs='cplex', per=60),
+                     dict(space='ext43', labels='mixed_strings', schemes='ext1', configs='decomp', per=300),
+                     dict(space='ext43', labels='letters', schemes='ext1', configs='decomp', per=300)],
         }
     else:
         labs = ['ints', 'ints_rev', 'letters', 'digit_strings', 'mixed_strings', 'ints_collide', 'words']
@@ -63,6 +73,8 @@ def init_worker(cfg):
     _lib['fast_det'] = [c for c in allc if 'fast' in c.tags and 'kwik' not in c.tags]
     _lib['cbc'] = [c for c in allc if 'cbc' in c.tags]
     _lib['solver'] = [c for c in allc if 'enum' in c.tags or 'cbc' in c.tags]
+    _lib['decomp'] = [c for c in allc if ('enum' in c.tags or 'cbc' in c.tags) and ({'parcons', 'optimize', 'pulp'} & c.tags)]
+    _lib['parcons_fast'] = [c for c in allc if 'fast' in c.tags and 'parcons' in c.tags]
     _lib['cplex'] = [c for c in allc if 'cplex' in c.tags or 'selector' in c.tags]
     from corankco.algorithms.exact.exactalgorithmbase import IncompatibleArgumentsException
     from corankco.consensus import Consensus
@@ -129,6 +141,10 @@ def oracle(ctx, info):
         ctx.count('results_with_several_rankings')
     if any(len(r) == 0 for r in info.ds):
         ctx.count('runs_on_datasets_with_an_empty_ranking')
+    if len(info.universe) == 4 and 'parcons' in info.cfg.tags or 'optimize' in info.cfg.tags:
+        nt = refmodel.nontrivial_components(info.universe, info.ref.table)
+        if nt and len(refmodel.components(info.universe, info.ref.table)) > 1:
+            ctx.count('runs_with_a_nontrivial_component_next_to_other_components')
     ctx.outcome((info.cfg.name, tuple(info.rankings())))
     if ctx.evals % 7000 == 1:
         ctx.sample(info.case(result=info.rankings()))
@@ -157,6 +173,7 @@ def summarize(tier, seed, merged, phases):
                    'exception or a timeout is a violation. non-trivial = result over >= 2 elements'}
     guards = [('documented refusals', c.get('documented_refusals', 0)),
               ('several rankings', c.get('results_with_several_rankings', 0)),
-              ('datasets with an empty ranking', c.get('runs_on_datasets_with_an_empty_ranking', 0))]
+              ('datasets with an empty ranking', c.get('runs_on_datasets_with_an_empty_ranking', 0)),
+              ('non-trivial component next to other components', c.get('runs_with_a_nontrivial_component_next_to_other_components', 0))]
     return cov, ['constructing the CPLEX classes directly while CPLEX is absent is a user error, not a case',
                  'the cplex stand-in returns any optimal vertex (all are enumerated as schedules)'], guards
